@@ -3,7 +3,9 @@
 package main
 
 import (
+	"encoding/json"
 	"fmt"
+	"io"
 	"math"
 	"reflect"
 	"strconv"
@@ -164,10 +166,10 @@ type implResult struct {
 	panicked string
 }
 
-func implParse(p *participle.Parser[any], in string, at bool) implResult {
+func implParse(p *participle.Parser[any], in string, at bool, more ...participle.ParseOption) implResult {
 	var r implResult
 	pan, msg := hx.Guard(func() {
-		v, err := p.ParseString("", in, participle.AllowTrailing(at))
+		v, err := p.ParseString("", in, append([]participle.ParseOption{participle.AllowTrailing(at)}, more...)...)
 		r.err = err
 		if err == nil {
 			r.ok = true
@@ -309,6 +311,15 @@ func (e *explorer) runGrammar(gr *gfam.Grammar, onlyInput *string) {
 				cfg := cfgStr(k, at)
 				if e.prop == "C13" {
 					if !gr.HasNegLook {
+						if e.extendedChain {
+							// the same walk with the Trace option on: tracing observes, it does not steer
+							tr := implParse(parsers[ki], in, at, participle.Trace(io.Discard))
+							w.Count("evaluations", 1)
+							if tr.ok != ir.ok || tr.panicked != ir.panicked || (tr.ok && !reflect.DeepEqual(tr.raw, ir.raw)) {
+								w.Violate(hx.Violation{Key: caseKey(gr, in, fmt.Sprintf("k=%d trailing=%v Trace", k, at)), Class: "trace-option-changes-parse",
+									Detail: map[string]any{"without_trace": fmt.Sprintf("ok=%v %s err=%v", ir.ok, g.RenderValue(ir.v, true), ir.err), "with_trace": fmt.Sprintf("ok=%v %s err=%v", tr.ok, g.RenderValue(tr.v, true), tr.err)}})
+							}
+						}
 						if prev != nil && prev.ok && ir.panicked == "" {
 							if !ir.ok {
 								w.Violate(hx.Violation{Key: caseKey(gr, in, fmt.Sprintf("k=%d->%d trailing=%v", prevK, k, at)), Class: "success-lost-with-more-lookahead",
@@ -554,8 +565,112 @@ func runDelegation(w *hx.Worker) {
 	}
 }
 
+// ---- numeric fields at choice points: a conversion failure (value out of range for the field) is a failure
+// of that alternative like any other; whether the parser may fall back depends on the lookahead, and a
+// success at k is the same success at every larger k.
+type numSmall struct {
+	N int8 `@Int`
+}
+type numBig struct {
+	N int64 `@Int`
+}
+type numWord struct {
+	W string `@Ident`
+}
+type numVal interface{ numval() }
+
+func (numSmall) numval() {}
+func (numBig) numval()   {}
+func (numWord) numval()  {}
+
+type numG1 struct {
+	Vals []numVal `@@*`
+}
+type numG2 struct {
+	A []int8  `( @Int "a"`
+	B []int64 `| @Int "b" )*`
+}
+type numG3 struct {
+	A *int8   `( @Int ";" )?`
+	B []int64 `@Int*`
+	C string  `@Ident?`
+}
+type numG4 struct {
+	A []uint8   `( @Int @Int`
+	B []float32 `| @Int )*`
+}
+
+var numLexer = lexer.MustSimple([]lexer.SimpleRule{{Name: "Int", Pattern: `[0-9]+`}, {Name: "Ident", Pattern: `[a-z]+`}, {Name: "Punct", Pattern: `;`}, {Name: "Space", Pattern: ` +`}})
+
+func numChain[T any](w *hx.Worker, name string, opts ...participle.Option) {
+	ks := []int{0, 1, 2, 3, participle.MaxLookahead, -1}
+	var ps []*participle.Parser[T]
+	for _, k := range ks {
+		p, err := participle.Build[T](append([]participle.Option{participle.Lexer(numLexer), participle.Elide("Space"), participle.UseLookahead(k)}, opts...)...)
+		if err != nil {
+			w.Violate(hx.Violation{Key: "numeric-alternatives " + name, Class: "build-failed", Detail: map[string]any{"err": err.Error()}})
+			return
+		}
+		ps = append(ps, p)
+	}
+	toks := []string{"7", "300", "70000000000", "a", "b", ";"}
+	var ins []string
+	var rec func(prefix []string)
+	rec = func(prefix []string) {
+		ins = append(ins, strings.Join(prefix, " "))
+		if len(prefix) == 4 {
+			return
+		}
+		for _, t := range toks {
+			rec(append(append([]string{}, prefix...), t))
+		}
+	}
+	rec(nil)
+	for _, in := range ins {
+		for _, at := range []bool{false, true} {
+			var prev *T
+			prevK := 0
+			for ki, k := range ks {
+				var v *T
+				var err error
+				pan, msg := hx.Guard(func() { v, err = ps[ki].ParseString("", in, participle.AllowTrailing(at)) })
+				w.Count("evaluations", 1)
+				if pan {
+					w.Violate(hx.Violation{Key: fmt.Sprintf("numeric-alternatives %s :: in=%q :: k=%d trailing=%v", name, in, k, at), Class: "panic", Detail: map[string]any{"panic": msg}})
+					break
+				}
+				if prev != nil {
+					if err != nil {
+						w.Violate(hx.Violation{Key: fmt.Sprintf("numeric-alternatives %s :: in=%q :: k=%d->%d trailing=%v", name, in, prevK, k, at), Class: "success-lost-with-more-lookahead", Detail: map[string]any{"error": err.Error()}})
+						break
+					}
+					if !reflect.DeepEqual(prev, v) {
+						a, _ := json.Marshal(prev)
+						b, _ := json.Marshal(v)
+						w.Violate(hx.Violation{Key: fmt.Sprintf("numeric-alternatives %s :: in=%q :: k=%d->%d trailing=%v", name, in, prevK, k, at), Class: "ast-changed-with-more-lookahead", Detail: map[string]any{"before": string(a), "after": string(b)}})
+						break
+					}
+				}
+				if err == nil {
+					prev, prevK = v, k
+					b, _ := json.Marshal(v)
+					w.DistinctS(name + string(b))
+				}
+			}
+		}
+	}
+}
+
+func runNumericAlternatives(w *hx.Worker) {
+	numChain[numG1](w, "Vals []Val `@@*` with Val = Small{int8} | Big{int64} | Word", participle.Union[numVal](numSmall{}, numBig{}, numWord{}))
+	numChain[numG2](w, "A []int8 `( @Int \"a\"`; B []int64 `| @Int \"b\" )*`")
+	numChain[numG3](w, "A *int8 `( @Int \";\" )?`; B []int64 `@Int*`; C string `@Ident?`")
+	numChain[numG4](w, "A []uint8 `( @Int @Int`; B []float32 `| @Int )*`")
+}
+
 func runLongBranch(w *hx.Worker) {
 	runDelegation(w)
+	runNumericAlternatives(w)
 	n := participle.MaxLookahead + 2
 	in := strings.Repeat("a", n) + "c"
 	var prevOK *bool
